@@ -21,6 +21,8 @@ TRUSTED = [
     "C10: asyncio timer semantics are replaced by harness/vsim.py (a timer fires at exactly its due millisecond, same-instant order seed-permuted)",
     "C10: sub-millisecond float effects (clock resolution 1e-6 ms, ttl*1000*0.1) are not modelled; the harness flags any non-integral schedule time",
     "C10: heapq is abstracted as an ascending list (pop a minimum); cancelled heap entries tied in `when` with an entry both sides hold may differ (heapq layout)",
+    "C10: which reschedule/cancel call _ServiceBrowserBase.async_update_records makes for a record update (old is None / expired / else) is not modelled: "
+    "the model replays the calls that were made, so that glue is judged by the oracle alone (datagrams and callbacks)",
     "C10: async_send is assumed not to raise inside a scheduler pass (the D8b input is repaired at the decoder, see C15)",
 ]
 ASSUMPTIONS = ["loop axioms WFSched (DESIGN 4.7): time is monotone, no due timer is passed, a timer block runs at its due time"]
@@ -114,6 +116,16 @@ class Recorder:
             n = len(rec.sim.draws)
             return lambda: "S %d %d" % (rec.now(), rec.sim.draws[n][3])
 
+        orig_init = cls.__init__
+
+        @functools.wraps(orig_init)
+        def init(self_, *a, **k):
+            orig_init(self_, *a, **k)
+            if rec.target is None:
+                rec.target = self_
+
+        cls.__init__ = init
+        rec._saved.append((cls, "__init__", orig_init))
         wrap("start", start_line)
         wrap("stop", lambda self_: "X %d" % rec.now())
         wrap("reschedule_ptr_first_refresh", ptr_line)
@@ -203,6 +215,12 @@ def run_case(case):
                 qs = B.QueryScheduler(zc, set(case["types"]), None, 5353, True, case["delay"], B._FIRST_QUERY_DELAY_RANDOM_INTERVAL, qt)
                 rec.target = qs
             else:
+                # a warm cache: pointer records learned before the browser exists are replayed to it by async_add_listener,
+                # with their original creation time, before the scheduler is started
+                now0 = float(sim.loop.ms)
+                zc.cache.async_add_records([DNSPointer(ty, const._TYPE_PTR, const._CLASS_IN, ttl, alias, created=now0 - age)
+                                            for (alias, ty, ttl, age) in case.get("warm", [])])
+                obs["t_create"] = sim.loop.ms
                 br = AsyncServiceBrowser(zc, list(case["types"]), listener=L(), delay=case["delay"], question_type=qt)
                 qs = br.query_scheduler
                 rec.target = qs
@@ -351,7 +369,17 @@ def oracle(case, obs):
             t, _, alias, ty, ttl = act
             if ty in case["types"] and t + T0 < t_end:
                 hist.setdefault((ty, alias.lower()), []).append((t + T0, ttl if ttl == 0 else max(ttl, floor_ttl)))
+    warm = set()
+    for (alias, ty, ttl, age) in case.get("warm", []):
+        if ty in case["types"]:
+            hist.setdefault((ty, alias.lower()), []).insert(0, (obs["t_create"] - age, ttl))
+            warm.add((ty, alias.lower()))
     post = [q for q in queries[4:]] if len(queries) >= 4 else []
+    # refresh passes ask QM unless QU is forced
+    for q in post:
+        if any(b != (case["qtype"] == "QU") for b in q[2]):
+            bad.append(("C10:refresh-qu", "refresh query at %d ms has QU bits %s (forced type %s)" % (q[0] - T0, q[2], case["qtype"])))
+            break
 
     def hits(ty, lo, hi):
         return [q[0] for q in queries if ty in q[1] and lo <= q[0] <= hi]
@@ -388,6 +416,10 @@ def oracle(case, obs):
             w = c + 750 * T
             # the schedule may be the one kept from an earlier sighting when that lies within `delay` (churn rule)
             lo, hi = (w, w + delay) if nlearn == 1 else (w - delay, w + 2 * delay)
+            if (ty, alias) in warm and ivs[0][0] == c and w <= t_start + 120 + 14000:
+                # a cached record whose 75% time is already past (or falls into the start-up phase) when the browser is created: its
+                # entry is due at the first running-phase pass, one delay after the fourth start-up query; the +10% steps follow
+                lo, hi = t_start + 20 + 14000 + delay, t_start + 120 + 14000 + delay
             if hi >= min(t_end, expire):
                 continue
             cand = hits(ty, lo, hi)
@@ -489,6 +521,14 @@ def gen_browser_case(rng, i):
             script.append([t3, "rec", rng.choice([alias, alias.swapcase()]), ty, ttl])
             exp = max(exp, t3 + 1000 * T)
         maxexp = max(maxexp, exp)
+    warm = []
+    if rng.random() < 0.3:
+        for k in range(rng.randint(1, 2)):
+            ty = rng.choice(types)
+            ttl = rng.choice([1125, 4500])
+            age = rng.choice([1000, 60000, 700 * ttl, 749 * ttl, 750 * ttl, 760 * ttl, 900 * ttl])
+            warm.append(["Warm%d.%s" % (k, ty), ty, ttl, age])
+            maxexp = max(maxexp, 1000 * ttl - age)
     horizon = min(maxexp + 40000, 12_000_000)
     r = rng.random()
     if r < 0.06:
@@ -496,15 +536,25 @@ def gen_browser_case(rng, i):
     elif r < 0.12:
         script.append([rng.randint(0, horizon), "close"])
     script.sort(key=lambda a: a[0])
-    return {"kind": "browser", "delay": delay, "qtype": qtype, "types": types, "simseed": rng.randint(0, 10**6), "horizon": horizon, "script": script}
+    case = {"kind": "browser", "delay": delay, "qtype": qtype, "types": types, "simseed": rng.randint(0, 10**6), "horizon": horizon, "script": script}
+    if warm:
+        case["warm"] = warm
+    return case
 
 
 def gen_sched_case(rng, i):
     delay = rng.choice([1000, 2000, 10000, 60000])
     types = TYPES[: rng.choice([1, 2])]
     qtype = rng.choice([None, None, "QU", "QM"])
-    script = [[rng.choice([0, 7, 100]), "start"]]
-    t = script[0][0]
+    script = []
+    t0s = rng.choice([0, 7, 100])
+    if rng.random() < 0.3:
+        for k in range(rng.randint(1, 2)):
+            ty = rng.choice(types)
+            ttl = rng.choice([1, 10, 60, 1125])
+            script.append([0, "ptr", "%s.%s" % (rng.choice(["a", "w", "A"]), ty), ty, ttl, rng.choice([0, 1, 500 * ttl, 750 * ttl, 760 * ttl, 999 * ttl])])
+    script.append([t0s, "start"])
+    t = t0s
     aliases = ["a", "b", "c", "A"]
     n = rng.randint(1, 8)
     for k in range(n):
